@@ -23,6 +23,10 @@
 #include <kernel/lafem/sparse_matrix_csr.hpp>
 #include <kernel/lafem/dense_vector.hpp>
 #include <kernel/lafem/transfer.hpp>
+#include <kernel/lafem/vector_mirror.hpp>
+#include <kernel/global/gate.hpp>
+#include <kernel/global/muxer.hpp>
+#include <control/asm/transfer_asm.hpp>
 #include <kernel/space/dof_mapping_renderer.hpp>
 #include <cstring>
 
@@ -33,6 +37,15 @@ typedef LAFEM::SparseMatrixCSR<double, Index> MatrixType;
 typedef LAFEM::DenseVector<double, Index> VectorType;
 
 static const double TOL = 1e-11;
+
+// exact scaling of all vertex coordinates by 2^e
+template<class Mesh_> void scale_mesh(Mesh_& m, int e)
+{
+  auto& vs = m.get_vertex_set();
+  for(Index i(0); i < vs.get_num_vertices(); ++i) for(int k(0); k < Mesh_::world_dim; ++k) vs[i][k] = std::ldexp(double(vs[i][k]), e);
+}
+// minimal domain level for the control-layer assembly (Control::Asm::asm_transfer_scalar only asks the level for its space)
+template<class Space_> struct CtlLevel { const Space_* space; };
 
 struct Proj { bool noise = false; double worst = 0.0; };
 static long long project(double a, double ps, Proj& pj)
@@ -486,7 +499,32 @@ vj::Value run_transfer(const vj::Value& c, MeshT<Shape_>& cmesh, MeshT<Shape_>& 
     }
   }
 
+  // ---- control layer: Control::Asm::asm_transfer_scalar, twice into the same transfer object ----
+  bool ctl_ok = true, ctl_repeat_ok = true; double ctl_dev = 0;
+  if(want_trunc)
+  {
+    typedef CtlLevel<Space_> LevelT;
+    typedef LAFEM::VectorMirror<double, Index> MirrorT;
+    std::shared_ptr<LevelT> lf = std::make_shared<LevelT>(), lc = std::make_shared<LevelT>();
+    lf->space = &fspace; lc->space = &cspace;
+    std::shared_ptr<Control::Domain::DomainLayer> no_layer;
+    Control::Domain::VirtualLevel<LevelT> vf(lf, no_layer), vc(lc, no_layer);
+    Global::Gate<VectorType, MirrorT> gate_f, gate_c;
+    Global::Muxer<VectorType, MirrorT> muxer;
+    LAFEM::Transfer<MatrixType> ctr;
+    auto lambda = [](const LevelT& l) { return l.space; };
+    Control::Asm::asm_transfer_scalar(vf, vc, cub, true, false, lambda, ctr, muxer, gate_f, gate_c);
+    ctl_dev = std::max(max_entry_dev(ctr.get_mat_prol(), P), std::max(max_entry_dev(ctr.get_mat_rest(), R), max_entry_dev(ctr.get_mat_trunc(), T)));
+    ctl_ok = ctl_dev <= 1e-13;
+    MatrixType p1 = ctr.get_mat_prol().clone(LAFEM::CloneMode::Deep), r1 = ctr.get_mat_rest().clone(LAFEM::CloneMode::Deep), t1 = ctr.get_mat_trunc().clone(LAFEM::CloneMode::Deep);
+    Control::Asm::asm_transfer_scalar(vf, vc, cub, true, false, lambda, ctr, muxer, gate_f, gate_c);
+    const double rep = std::max(max_entry_dev(ctr.get_mat_prol(), p1), std::max(max_entry_dev(ctr.get_mat_rest(), r1), max_entry_dev(ctr.get_mat_trunc(), t1)));
+    ctl_repeat_ok = rep <= 1e-13;
+    ctl_dev = std::max(ctl_dev, rep);
+  }
+
   // ---- dump ----
+  if(c.get_int("scale", 0) != 0) { scale_mesh(cmesh, -(int)c.get_int("scale", 0)); scale_mesh(fmesh, -(int)c.get_int("scale", 0)); }
   const std::string out = c["out"].as_str();
   FILE* f = std::fopen(out.c_str(), "w");
   if(!f) throw std::runtime_error("cannot write " + out);
@@ -527,6 +565,7 @@ vj::Value run_transfer(const vj::Value& c, MeshT<Shape_>& cmesh, MeshT<Shape_>& 
   std::fputs(",\"tpx\":", f); put_vec(f, tpx, 1.0, ptpx);
   std::fprintf(f, ",\"trunc\":%s,\"tpxnoise\":%s,\"clone_ok\":%s,\"cvi_ok\":%s,\"cvf_ok\":%s,\"cvf_tp_ok\":%s", want_trunc ? "true" : "false",
     ptpx.noise ? "true" : "false", clone_ok ? "true" : "false", cvi_ok ? "true" : "false", cvf_ok ? "true" : "false", cvf_tp_ok ? "true" : "false");
+  std::fprintf(f, ",\"ctl_ok\":%s,\"ctl_repeat_ok\":%s,\"scale\":%d", ctl_ok ? "true" : "false", ctl_repeat_ok ? "true" : "false", (int)c.get_int("scale", 0));
   std::fprintf(f, ",\"xdone\":%s,\"xsdone\":%s,\"xfail\":%d", x_done ? "true" : "false", xs_done ? "true" : "false", xfail);
   std::fputs(",\"XCP\":", f); if(x_done) put_rows(f, XCP, 1.0, pxc); else std::fputs("[]", f);
   std::fputs(",\"XF\":", f); if(x_done && intmode) put_rows(f, XF, ps, pxf); else std::fputs("[]", f);
@@ -538,7 +577,7 @@ vj::Value run_transfer(const vj::Value& c, MeshT<Shape_>& cmesh, MeshT<Shape_>& 
   std::fclose(f);
   if(!exact) return vh::bad("a mesh coordinate left the integer domain at scale 2^K");
   vj::Value r = vh::ok();
-  r["dev_p"] = pp.worst; r["dev_tp"] = pt.worst; r["dev_v"] = pv.worst; r["dev_fn"] = fn_worst; r["vdev"] = vdev; r["rdev"] = rdev; r["xc_dev"] = xc_dev; r["xf_dev"] = xf_dev; r["dev_xs"] = pxs.worst; r["ngf"] = (long long)ngf; r["nnz"] = (long long)P.used_elements();
+  r["dev_p"] = pp.worst; r["dev_tp"] = pt.worst; r["dev_v"] = pv.worst; r["dev_fn"] = fn_worst; r["vdev"] = vdev; r["rdev"] = rdev; r["xc_dev"] = xc_dev; r["xf_dev"] = xf_dev; r["dev_xs"] = pxs.worst; r["ctl_dev"] = ctl_dev; r["ngf"] = (long long)ngf; r["nnz"] = (long long)P.used_elements();
   return r;
 }
 
@@ -584,6 +623,9 @@ template<class Shape_> vj::Value run_shape(const vj::Value& c)
   int K = std::max(min_scale(*cmesh, 30), min_scale(*fmesh, 30));
   if(K < 0) { vj::Value r = vh::ok(); r["skip"] = true; r["why"] = "mesh coordinates are not dyadic (outside the exact domain)"; return r; }
 
+  // uniformly scaled copy of the geometry (exact power of two): the transfer operators do not depend on the unit of length
+  const int sc = (int)c.get_int("scale", 0);
+  if(sc != 0) { scale_mesh(*cmesh, sc); scale_mesh(*fmesh, sc); if(fmesh0) scale_mesh(*fmesh0, sc); }
   const std::string el = c["el"].as_str();
   if(el == "lagrange1") return run_transfer<Shape_, Space::Lagrange1::Element<TrafoType>>(c, *cmesh, *fmesh, fmesh0.get(), K);
   if(el == "lagrange2") return run_transfer<Shape_, Space::Lagrange2::Element<TrafoType>>(c, *cmesh, *fmesh, fmesh0.get(), K);
